@@ -32,11 +32,11 @@ Proof.
          try (rewrite (Hna _ _ _ _ eq_refl) by (intros; discriminate))).
   - split; [split; [auto|discriminate]|constructor].
   - split; [split; [auto|discriminate]|constructor].
-  - split; [split; [|discriminate]|constructor]. exists h1. split; auto. exists h'. split; auto.
+  - split; [split; [|discriminate]|constructor]. exists h1. split; [auto|]. exists h'. split; [auto|auto].
   - split; [split; [|discriminate]|constructor]. exists h'. split; auto.
   - split; [split; [|discriminate]|constructor]. exists h'. split; auto.
   - split; [split; [auto|discriminate]|constructor].
-  - split; [split; [|discriminate]|constructor]. exists h'. split; auto. exists h'. split; auto. constructor; auto.
+  - split; [split; [|discriminate]|constructor]. exists h'. split; [auto|]. exists h'. split; [constructor; auto|auto].
   - split; [split; [auto|discriminate]|]. constructor; [|constructor].
     split; simpl; [exists []; split; auto|discriminate].
   - split; [split; [auto|discriminate]|constructor].
@@ -98,8 +98,10 @@ Proof.
   destruct (stack u) as [|p k]; simpl in Hs.
   - rewrite Hs in Hin. contradiction.
   - destruct Hs as (h' & Ht & _). destruct p; auto.
-    + inversion Ht; subst. split; auto. apply (H5 _ Hin).
-    + inversion Ht; subst. rewrite <- H in Hin. contradiction.
+    + inversion Ht; subst. split; auto.
+      match goal with H : forall x, In x _ -> fst x < _ |- _ => apply (H _ Hin) end.
+    + inversion Ht; subst.
+      match goal with H : [] = held u |- _ => rewrite <- H in Hin end. contradiction.
 Qed.
 
 (* main lemma: a thread that wants lock l (with M - l <= n) guarantees that somebody can step *)
@@ -187,7 +189,7 @@ Qed.
 Corollary safe_prog_progress : forall M progs, forallb (safe_prog M) progs = true ->
   forall c, reachable (init progs) c -> finished c \/ (exists c', step c c') \/ env_parked c.
 Proof.
-  intros M progs H. apply safe_skeleton_progress. rewrite forallb_forall in H. apply Forall_forall.
+  intros M progs H. apply (safe_skeleton_progress M). rewrite forallb_forall in H. apply Forall_forall.
   intros p Hp. apply safe_prog_sound. auto.
 Qed.
 
@@ -204,7 +206,7 @@ Corollary library_progress : forall M ops, forallb (safe_prog M) ops = true ->
   forall progs, Forall (fun p => In p ops) progs ->
   forall c, reachable (init progs) c -> finished c \/ (exists c', step c c') \/ env_parked c.
 Proof.
-  intros M ops H progs Hin. apply safe_skeleton_progress. rewrite forallb_forall in H.
+  intros M ops H progs Hin. apply (safe_skeleton_progress M). rewrite forallb_forall in H.
   eapply Forall_impl; [|exact Hin]. intros p Hp. apply safe_prog_sound. auto.
 Qed.
 
@@ -242,7 +244,7 @@ Theorem blockfree_progress : forall M progs, Forall (safe M) progs -> forallb bl
   forall c, reachable (init progs) c -> finished c \/ exists c', step c c'.
 Proof.
   intros M progs Hs Hb c Hr. destruct (safe_skeleton_progress M progs Hs c Hr) as [H|[H|H]]; auto.
-  left. pose proof (reachable_bf progs c Hb Hr) as Hbf. unfold finished.
+  left. pose proof (reachable_bf progs c Hb Hr) as Hbf. unfold finished. unfold env_parked in H.
   rewrite Forall_forall in *. intros t Ht. destruct (H t Ht) as [E | (_ & k & E)]; auto.
   specialize (Hbf t Ht). unfold bf_thread in Hbf. rewrite E in Hbf. simpl in Hbf. discriminate.
 Qed.
@@ -251,7 +253,7 @@ Corollary blockfree_library_progress : forall M ops, forallb (safe_prog M) ops =
   forall progs, Forall (fun p => In p ops) progs ->
   forall c, reachable (init progs) c -> finished c \/ exists c', step c c'.
 Proof.
-  intros M ops H Hb progs Hin. apply blockfree_progress.
+  intros M ops H Hb progs Hin. apply (blockfree_progress M).
   - rewrite forallb_forall in H. eapply Forall_impl; [|exact Hin]. intros p Hp. apply safe_prog_sound. auto.
   - rewrite forallb_forall in *. intros p Hp. apply Hb. rewrite Forall_forall in Hin. auto.
 Qed.
@@ -259,14 +261,6 @@ Qed.
 (* ---------------- the unsafe patterns are really stuck ---------------- *)
 Definition stuck (c : config) : Prop :=
   ~ finished c /\ ~ env_parked c /\ ~ exists c', step c c'.
-
-Ltac no_step :=
-  let c' := fresh in let Hst := fresh in
-  intros (c' & Hst); inversion Hst as [pre t t' post sp Ht E E']; clear E';
-  repeat (destruct pre as [|? pre]; simpl in E;
-          [ inversion E; subst; inversion Ht; subst; simpl in *; discriminate | ]);
-  try (inversion E; fail); repeat (inversion E as [[E0 E1]]; clear E; rename E1 into E); try discriminate;
-  destruct pre; discriminate.
 
 (* 1. blockCache.last(): RLock; getByHeight: RLock ... with a writer that has called Lock() in between *)
 Definition nested_rlock_reader := mkT [(0, R)] [Acq 0 R; Rel 0 R; Rel 0 R] false.
@@ -288,10 +282,40 @@ Proof.
   - inversion E; subst. inversion Ht; subst. simpl in *. discriminate.
   - inversion E. destruct pre'; discriminate.
 Qed.
-(* ... and it is reachable from the two unsafe programs (so the premise of the theorem cannot be dropped) *)
+(* ... and it is reachable from the two source-level programs (so the premise of the theorem cannot be dropped) *)
 Definition last_unsafe := Seq (Acq 0 R) (Seq (Seq (Acq 0 R) (Rel 0 R)) (Rel 0 R)).
 Definition push_prog := Seq (Acq 0 W) (Rel 0 W).
 Example last_unsafe_rejected : safe_prog 1 last_unsafe = false. Proof. reflexivity. Qed.
+
+Lemma r_first : forall c0 c1 c, step c0 c1 -> reachable c1 c -> reachable c0 c.
+Proof.
+  intros c0 c1 c Hs Hr. induction Hr.
+  - eapply r_step; [apply r_refl | exact Hs].
+  - eapply r_step; eauto.
+  - eapply r_env; eauto.
+Qed.
+
+Lemma step_first : forall t t' post sp, tstep (t :: post) t t' sp -> step (t :: post) (t' :: post ++ sp).
+Proof. intros. apply (step_at [] t t' post sp). assumption. Qed.
+Lemma step_second : forall a t t' post sp,
+  tstep (a :: t :: post) t t' sp -> step (a :: t :: post) (a :: t' :: post ++ sp).
+Proof. intros. apply (step_at [a] t t' post sp). assumption. Qed.
+Ltac fwd0 r := eapply r_first; [ apply step_first; r | simpl ].
+Ltac fwd1 r := eapply r_first; [ apply step_second; r | simpl ].
+
+Theorem nested_rlock_reachable_stuck :
+  exists c, reachable (init [last_unsafe; push_prog]) c /\ stuck c.
+Proof.
+  exists [nested_rlock_reader; pending_writer]. split; [|exact nested_rlock_refuted].
+  unfold init, last_unsafe, push_prog. simpl.
+  fwd0 ltac:(apply s_seq).
+  fwd0 ltac:(apply s_rlock; reflexivity).
+  fwd0 ltac:(apply s_seq).
+  fwd0 ltac:(apply s_seq).
+  fwd1 ltac:(apply s_seq).
+  fwd1 ltac:(apply s_announce).
+  apply r_refl.
+Qed.
 
 (* 2. TransactionPool.Add: Lock; evictUnprocessable: RLock of the same mutex — a single goroutine blocks itself *)
 Definition self_upgrade := mkT [(0, W)] [Acq 0 R; Rel 0 R; Rel 0 W] false.
@@ -302,6 +326,18 @@ Proof.
   destruct pre as [|x pre']; simpl in E.
   - inversion E; subst. inversion Ht; subst. simpl in *. discriminate.
   - inversion E. destruct pre'; discriminate.
+Qed.
+Definition add_unsafe := Seq (Acq 0 W) (Seq (Seq (Acq 0 R) (Rel 0 R)) (Rel 0 W)).
+Theorem rlock_under_lock_reachable_stuck : exists c, reachable (init [add_unsafe]) c /\ stuck c.
+Proof.
+  exists [self_upgrade]. split; [|exact rlock_under_lock_refuted].
+  unfold init, add_unsafe. simpl.
+  fwd0 ltac:(apply s_seq).
+  fwd0 ltac:(apply s_announce).
+  fwd0 ltac:(apply s_wlock; reflexivity).
+  fwd0 ltac:(apply s_seq).
+  fwd0 ltac:(apply s_seq).
+  apply r_refl.
 Qed.
 (* Lock under Lock (remove() called from Add) *)
 Definition self_relock := mkT [(0, W)] [Acq 0 W; Rel 0 W; Rel 0 W] true.
